@@ -46,6 +46,10 @@ func replay(r *ev.Run) {
 		enforcementPhase(r)
 		r.Finish()
 	}
+	if probe.Phase == "mysql-enforce" {
+		mysqlEnforcementPhase(r)
+		r.Finish()
+	}
 	var c replayT
 	r.LoadReplay(&c)
 	w := newWorld(c.Tier == "thorough")
@@ -101,6 +105,7 @@ func main() {
 	}
 	verdictPhase(r, w)
 	enforcementPhase(r)
+	mysqlEnforcementPhase(r) // last: switches the process-wide SQL dialect to MySQL
 
 	r.Rule("verdict: state = one firewall configuration (chain of handlers with rule sets, ignore_parse_error, dialect; " +
 		"layers: every derivable rule alone in [deny(r)] and [allow(r),denyall]; [thorough: every pair of core rules in the same two contexts;] " +
